@@ -67,15 +67,10 @@ def structure_rules(ctx):
     else:
         rep.analysed(pf)
         sorts = [(bi, t) for bi, t in pf.calls() if t["callee"].get("name", "").startswith(("sort", "sorted")) and "indirect" not in t["callee"]]
-        ok = len(sorts) == 1 and sorts[0][1]["callee"]["name"] == "sort_by_key"
-        key_ok = False
-        if ok:
-            cl = pf.local_ty(op_local(sorts[0][1]["args"][1])).peel_refs() if op_local(sorts[0][1]["args"][1]) is not None else None
-            cf = F.fn(cl.d.get("closure", "")) if cl is not None and cl.kind() == "closure" else None
-            if cf is not None:
-                rs = tables.result_of_arm(cf, 0)
-                key_ok = bool(rs) and all(r[0] == "param" and r[2][-1:] == ("line",) for r in rs)
-        rep.ob("C19.R3", "stable-sort-by-line", ok and key_ok, "" if ok and key_ok else "the report is not sorted with the stable sort_by_key(|d| d.line): ties would not keep pass order", pf.loc(), how="sort_by_key(|diag| diag.line)")
+        STABLE = ("sort", "sort_by", "sort_by_key", "sort_by_cached_key")
+        ok = len(sorts) == 1 and sorts[0][1]["callee"]["name"] in STABLE
+        key_ok = ok and common.sort_key_fields(F, pf, sorts[0][1]) == {"line"}
+        rep.ob("C19.R3", "stable-sort-by-line", ok and key_ok, "" if ok and key_ok else "the report is not sorted with a stable sort on the line alone: ties would not keep pass order", pf.loc(), how="stable sort by line")
     # ListBuilder::combine
     comb = None
     for p, fn in F.fns.items():
